@@ -27,6 +27,8 @@ THEOREMS = [
     "GeoVerif.Codec.float_nan_stored",
     "GeoVerif.Codec.float_sentinel",
     "GeoVerif.Codec.float_inf",
+    "GeoVerif.Codec.complex_reject",
+    "GeoVerif.Codec.real_accept",
     "GeoVerif.Codec.wrap32_id",
     "GeoVerif.Codec.int_roundtrip",
     "GeoVerif.Codec.int_gap",
@@ -64,7 +66,8 @@ ASSUMPTIONS = [
 ]
 LEVEL_TEXT = (
     "Lean theorems for all values: floats other than the sentinel read back as written, NaN <-> no-data code, infinities kept "
-    "(float_roundtrip, float_nan_stored, float_sentinel, float_inf); integers in the 32-bit range are stored as themselves, gaps "
+    "(float_roundtrip, float_nan_stored, float_sentinel, float_inf), a complex array is refused as float data rather than "
+    "stripped of its imaginary part (complex_reject); integers in the 32-bit range are stored as themselves, gaps "
     "use the integer no-data code, non-integral and out-of-range values are rejected, never altered (int_roundtrip, int_gap, "
     "nonintegral_reject, int_reject, int_accept_exact; the as-found silent wrap is refuted by int_wraps_counterexample and was "
     "repaired); booleans only 0/1 (bool_*); accepted value maps keep every label, reserve key 0 for Unknown and hold only keys that fit the "
@@ -100,8 +103,10 @@ def gen_case(rng):
         dt = rng.choice(["float64", "float64", "float32"])
         if dt == "float32":
             xs = [x for x in xs if math.isnan(x) or math.isinf(x) or abs(x) < 3e38] or [0.0]
+        # now and then the array is complex (an unsupported type, to be refused): with an imaginary part somewhere or all real
+        cplx = rng.choice(["imag", "real"]) if rng.random() < 0.08 else None
         return {"kind": kind, "dtype": dt, "xs": [ftok(np.array([x], dtype=dt)[0]) for x in xs],
-                "extra": rng.choice([0, 0, 0, 1, 3])}
+                "extra": rng.choice([0, 0, 0, 1, 3]), **({"complex": cplx} if cplx else {})}
     if kind == "int":
         xs = [rng.choice(INT_POOL) for _ in range(n)]
         # `extra`: the geometry has that many more vertices than the array has entries (the gap is padded with no-data)
@@ -246,6 +251,10 @@ def run_case(ctx, case, path):
     if kind == "float":
         arr = np.array([float("nan") if t == "nan" else (float("inf") if t == "inf" else (float("-inf") if t == "-inf" else float(Fraction(t)))) for t in case["xs"]], dtype=case["dtype"])
         typ = "FLOAT"
+        if case.get("complex"):
+            arr = arr.astype("complex128")
+            if case["complex"] == "imag":
+                arr[0] = complex(0.0 if not np.isfinite(arr[0].real) else arr[0].real, 2.0)
     elif kind == "int":
         arr = int_array(case["xs"], case["dtype_hint"])
         typ = "INTEGER"
@@ -292,7 +301,16 @@ def run_case(ctx, case, path):
     elif extra:
         back = back[: len(arr)]
         raw = None if raw is None else raw[: len(arr)]
-    if kind == "float":
+    if kind == "float" and case.get("complex"):
+        # an array of an unsupported type is refused as a whole (model: acceptF .complex), nothing is stored
+        lines.append({"m": "codec", "op": "float", "complex": True, "ndv": ftok(1.17549435e-38), "xs": []})
+        checks.append(("complex", status))
+        if status == "ok":
+            failures.append((f"complex array {arr} accepted as float data and stored as {back} (the imaginary part is dropped)",
+                             "C08:complex-silently-altered"))
+        elif [float(x) for x in back] != [0.0] * len(back):
+            failures.append((f"rejected complex assignment changed the stored values to {back}", "C08:rejected-but-changed"))
+    elif kind == "float":
         lines.append({"m": "codec", "op": "float", "ndv": ftok(1.17549435e-38), "xs": [ftok(x) for x in arr.astype("float64")],
                       "n": len(arr) + extra})
         checks.append(("float", status, dt, [ftok(x) for x in raw], [ftok(x) for x in back]))
@@ -346,6 +364,9 @@ def compare(ctx, recs):
                         ctx.disagree(case, "value map verdict", model=out, impl=status)
                 elif status != "ok" or sorted(map(tuple, out)) != sorted(map(tuple, got)):
                     ctx.disagree(case, "value map content", model=out, impl=(status, got))
+            elif chk[0] == "complex":
+                if out != chk[1]:
+                    ctx.disagree(case, "complex array given as float data", model=out, impl=chk[1])
             elif chk[0] == "float":
                 _, status, dt, raw, back = chk
                 if status != "ok" or raw != out["stored"] or back != out["read"] or dt != "float64":
